@@ -307,7 +307,8 @@ pub fn random_req(wd: &mut World) -> Req {
 pub fn choose_amounts(wd: &mut World, q: &mut Req, f: &Funds) {
     let rng = &mut wd.rng;
     let e = f.eligible;
-    let inel: Vec<u64> = f.ineligible.iter().map(|x| x.1).filter(|v| *v > 5000).collect();
+    let mut inel: Vec<u64> = f.ineligible.iter().map(|x| x.1).filter(|v| *v > 5000).collect();
+    inel.sort();
     let (mut total, class): (u64, &'static str) = match rng.gen_range(0..12) {
         0..=2 if e > 1 => (rng.gen_range(1..=e), "random<=eligible"),
         3..=4 if e > 70_000 => (e - rng.gen_range(10_000..60_000), "near-all-eligible"),
